@@ -216,15 +216,29 @@ def binning_params(draw, max_bins=4, methods=("linear", "comoving", "logspace", 
 
 
 def binning_edges_reference(b, cosmology="Planck15"):
-    """bin edges of a binning_params dict through the library (used only to lay
-    out scenes; C15 checks these edges against an independent oracle)"""
-    from vlib.pipeline import get_cosmology
-    from yaw.config import BinningConfig
-
+    """bin edges of a binning_params dict, computed WITHOUT the library (numpy / astropy /
+    scipy only), so that generation never fails because of the code under test.  Used to lay
+    out scenes and to place redshifts on edges; the checks take the edges that are judged from
+    the library's configuration (C15 compares those with an independent oracle)."""
     if b["edges"] is not None:
         return np.asarray(b["edges"], dtype=float)
-    cfg = BinningConfig.create(zmin=b["zmin"], zmax=b["zmax"], num_bins=b["num_bins"], method=b["method"], closed=b["closed"], cosmology=get_cosmology(cosmology))
-    return np.asarray(cfg.edges, dtype=float)
+    zmin, zmax, nb = float(b["zmin"]), float(b["zmax"]), int(b["num_bins"])
+    if b["method"] == "linear":
+        return np.linspace(zmin, zmax, nb + 1)
+    if b["method"] == "logspace":
+        lo, hi = np.log([1.0 + zmin, 1.0 + zmax])
+        edges = np.logspace(lo, hi, nb + 1, base=np.e) - 1.0
+        edges[0], edges[-1] = zmin, zmax
+        return edges
+    # comoving: invert chi(z) with a bracketing root finder on astropy's distances
+    from scipy.optimize import brentq
+
+    from vlib.pipeline import distance_mpc
+
+    chi = lambda z: float(distance_mpc(cosmology, "Mpc/h", z))  # noqa: E731
+    targets = np.linspace(chi(zmin), chi(zmax), nb + 1)
+    edges = np.array([brentq(lambda z, t=t: chi(z) - t, zmin, zmax, xtol=1e-13, rtol=1e-14) if 0 < i < nb else (zmin if i == 0 else zmax) for i, t in enumerate(targets)])
+    return edges
 
 
 @st.composite
